@@ -242,7 +242,7 @@ PROPS["C26"] = dict(
                 "nabSextets and the bytes flavour -- exhaustive small domain plus structured large values in harness/c26.py.")
 
 PROPS["C25"] = dict(
-    contracts=["contracts.c25_boxing"], harness="harness.c25", level="other",
+    contracts=["contracts.c25_boxing", "contracts.c25_run"], harness="harness.c25", level="other",
     technique="contract-based deductive verification (pyvc, loops cut by invariants, piles of any depth) of Boxer.exen/exdo/rexdo/rendo/endo/predo/end; "
               "bounded runtime contract on the real Boxer.run over random box forests for the transition block",
     trusted_base=["a Box is known by identity (uninterpreted sort); its nabe methods (exdo, rexdo, rendo, endo, predo) are EXT: they append to a ghost call log, "
@@ -250,13 +250,13 @@ PROPS["C25"] = dict(
                   "list slicing / reversed() on window sequences (pyvc/builtins.py wseq_slice, wseq_reversed)"],
     assumptions=["W2 (precondition of exen): two piles that agree on their whole common length have the same length -- a pile ends at a leaf (Box._trace); checked natively "
                  "on every pair of boxes of every random forest of the harness, not proved from Box._trace",
-                 "the transition block inside the generator Boxer.run (call order exen -> predo -> exdo -> rexdo -> rendo -> endo, nothing when predo fails) is NOT under "
-                 "contract: bounded tier only"],
+                 "Boxer.run (contracts/c25_run.py): one ARBITRARY pass of the while-loop (cut by an invariant) with the active pile bounded to 1..2 boxes and 0..2 transition acts per box; "
+                 "exen/predo/exdo/... summarised by their own contracts; hold bags as a plain mapping"],
     explanation="PROVED for piles of any depth: Boxer.exen never falls off its loop and splits at the FIRST index that is far itself or where the piles differ; the boxes "
                 "above it are common to both piles and do not contain far; exdos / rexdos are the boxes left / kept in bottom-up order, endos / rendos the boxes arrived at / "
                 "kept in top-down order (exact element-wise characterisation of all four lists); exdo/rexdo/rendo/endo call exactly the matching method once per list "
                 "element in list order and nothing else; predo asks top-down, stops at the first unmet box and returns whether all are met; end exits every box of the "
-                "active pile exactly once bottom-up. BOUNDED: Boxer.run on random forests (depth <= 3, up to 4 transitions, failing preconditions), logged act order "
+                "active pile exactly once bottom-up. PROVED for one arbitrary pass of the generator Boxer.run (pile <= 2, <= 2 acts per box): boxes visited top-down, afdo before the acts, acts in declaration order, the first act that fires with its destination\'s preconditions met gives exdo(exdos), rexdo(rexdos), rendo(rendos), endo(endos), redo with exactly exen\'s lists and makes the destination active, nothing is consulted afterwards; a refused act contributes nothing; no transition -> rendo([]), endo([]), redo; an end request -> end() once and True; first pass enters the whole pile of the first box or returns False without any action. BOUNDED: Boxer.run on random forests (depth <= 3, up to 4 transitions, failing preconditions), logged act order "
                 "compared with the prescribed one.")
 
 MEMO_NOTE = "Native bounded harness (harness/memo_native.py): the real Memoer with scripted send/receive. "
